@@ -8,6 +8,8 @@ package props
 //   mutate   the encoded JSON with one position replaced by another JSON value → DecodeCustom
 //   number   every JSON number text of the boundary list against every numeric kind (and time.Time)
 //   claims   Claims values → jwt.Sign → Parser.Parse; model encodeClaims → parseClaims
+//   refresh  token refresh: Claims (Raw possibly holding registered names) → Sign → Parse → set some
+//            fields of the PARSED Claims (whose Raw holds every old member) → Sign → Parse, 1–3 cycles
 //   history  2–4 operations (EncodeCustom / DecodeCustom / Sign→Parse refresh) on one Claims with a
 //            pre-populated Raw and one pre-populated destination (c10_history.go)
 // plus direct evaluation of the property (round trip equality, "fits ⇔ accepted, never altered").
@@ -453,6 +455,10 @@ type c10Case struct {
 	Claims *c10ClaimsIn `json:"claims,omitempty"`
 	// history: a sequence of operations on one Claims / one destination
 	Hist *c10Hist `json:"hist,omitempty"`
+	// float64: a caller-built Raw holding a Go float64 (bit pattern) for an integer destination
+	F64 uint64 `json:"f64,omitempty"`
+	// refresh: Parse → modify fields → Sign → Parse cycles
+	Mods []c10ClaimsIn `json:"mods,omitempty"`
 }
 
 type c10ClaimsIn struct {
@@ -495,7 +501,7 @@ func c10HasF32Edge(v any) bool {
 	return false
 }
 
-var c10KnownClasses = map[string]bool{"c10-named-bytes-encode-panic": true, "c10-map-key-panic": true, "c10-float32-max-roundtrip": true,
+var c10KnownClasses = map[string]bool{"c10-named-bytes-encode-panic": true, "c10-map-key-panic": true, "c10-float32-max-roundtrip": true, "c10-float64-int-boundary": true,
 	"c10-uint-decode-inverted": true, "c10-slice-encode-panic": true}
 
 func (f *c10Fail) fail(v vf.Violation) {
@@ -882,6 +888,15 @@ func c10Time(p *[2]int64) time.Time {
 	return time.Unix(p[0], p[1]).UTC()
 }
 
+// Raw as the caller may hold it: unrelated members, and — as after Parse, or by direct construction —
+// members under the REGISTERED claim names with other values or other JSON kinds than the fields
+var c10ExtraRaw = []string{`{}`, `{"http://example.com/is_root":true}`, `{"n":1.50,"l":[1,"x",null],"o":{"k":"v"}}`, `{"scope":"a b"}`, ``,
+	`{"iss":"old-issuer"}`, `{"iss":"old-issuer","sub":"old-sub","jti":"old-id","aud":["old1","old2"],"exp":4102444800,"nbf":0,"iat":1.5,"keep":true}`,
+	`{"sub":"old-sub","aud":"old-aud","iat":1300819380}`, `{"exp":253402300799,"nbf":-253402300799.5,"jti":"old-id"}`,
+	`{"iss":1,"aud":{"a":1}}`, `{"exp":"soon","keep":[1]}`, `{"jti":null,"sub":true,"iat":"x"}`, `{"aud":["a",2]}`, `{"nbf":1e30}`}
+
+var c10Registered = map[string]bool{"iss": true, "sub": true, "aud": true, "exp": true, "nbf": true, "iat": true, "jti": true}
+
 func c10GenClaims(r *vf.Rand) *c10ClaimsIn {
 	in := &c10ClaimsIn{}
 	if r.Intn(4) != 0 {
@@ -934,7 +949,7 @@ func c10GenClaims(r *vf.Rand) *c10ClaimsIn {
 	default:
 		in.NowSec = 1300819380
 	}
-	in.Extra = vf.Pick(r, []string{`{}`, `{"http://example.com/is_root":true}`, `{"n":1.50,"l":[1,"x",null],"o":{"k":"v"}}`, `{"scope":"a b"}`, ``})
+	in.Extra = vf.Pick(r, c10ExtraRaw)
 	return in
 }
 
@@ -1001,20 +1016,27 @@ func execC10Claims(c *vf.Ctx, d *vf.Driver, cs c10Case) {
 	if impl != "ok" {
 		return
 	}
-	// direct: the registered claims come back unchanged (instants to the nanosecond), extra members too
+	// direct: a SET field wins over anything Raw holds under its name and comes back unchanged
+	// (instants to the nanosecond); a zero field leaves Raw's member in charge (covered by the model
+	// comparison above); non-registered members come back unchanged
 	c.Count("predicate/claims-roundtrip")
 	g := tok.Claims
-	same := g.Issuer == in.Iss && g.Subject == in.Sub && g.JWTID == in.Jti && len(g.Audience) == len(in.Aud) &&
-		g.ExpirationTime.Equal(cl.ExpirationTime) && g.NotBefore.Equal(cl.NotBefore) && g.IssuedAt.Equal(cl.IssuedAt) &&
-		g.ExpirationTime.IsZero() == cl.ExpirationTime.IsZero()
-	for i := range in.Aud {
-		same = same && i < len(g.Audience) && g.Audience[i] == in.Aud[i]
+	same := (in.Iss == "" || g.Issuer == in.Iss) && (in.Sub == "" || g.Subject == in.Sub) && (in.Jti == "" || g.JWTID == in.Jti) &&
+		(cl.ExpirationTime.IsZero() || g.ExpirationTime.Equal(cl.ExpirationTime)) &&
+		(cl.NotBefore.IsZero() || g.NotBefore.Equal(cl.NotBefore)) && (cl.IssuedAt.IsZero() || g.IssuedAt.Equal(cl.IssuedAt))
+	if cl.Audience != nil {
+		same = same && len(g.Audience) == len(in.Aud)
+		for i := range in.Aud {
+			same = same && i < len(g.Audience) && g.Audience[i] == in.Aud[i]
+		}
 	}
 	for k, v := range cl.Raw {
-		same = same && vf.FromJSON(g.Raw[k]).Equal(vf.FromJSON(v))
+		if !c10Registered[k] {
+			same = same && vf.FromJSON(g.Raw[k]).Equal(vf.FromJSON(v))
+		}
 	}
 	if !same {
-		f.fail(vf.Violation{Kind: "property", Class: "c10-claims-roundtrip", What: "registered claims do not survive Sign → Parse", Case: cs, Observed: c04ClaimsWire(g).Render(), Required: claimsW.Render()})
+		f.fail(vf.Violation{Kind: "property", Class: "c10-claims-roundtrip", What: "registered claims do not survive Sign → Parse (a set field must win over Raw)", Case: cs, Observed: c04ClaimsWire(g).Render(), Required: claimsW.Render()})
 	}
 }
 
@@ -1032,6 +1054,68 @@ func execC10(c *vf.Ctx, d *vf.Driver, cs c10Case) {
 		execC10Claims(c, d, cs)
 	case "history":
 		execC10History(c, d, cs)
+	case "refresh":
+		execC10Refresh(c, d, cs)
+	case "float64":
+		execC10Float64(c, cs)
+	}
+}
+
+// c10Float64Values: boundary float64 values for a `bits`-wide integer destination
+func c10Float64Values(bits int) []float64 {
+	p := func(e int) float64 { return math.Ldexp(1, e) }
+	vs := []float64{0, math.Copysign(0, -1), 1, -1, 0.5, -0.5, 1.5, 255, 256, 1e300, -1e300, math.Inf(1), math.Inf(-1), math.NaN(),
+		p(bits - 1), -p(bits - 1), p(bits), -p(bits), 2 * p(bits), p(bits-1) - 1, p(bits) - 1, -p(bits-1) - 1,
+		math.Nextafter(p(bits-1), 0), math.Nextafter(p(bits), 0), math.Nextafter(p(bits-1), math.Inf(1)), math.Nextafter(-p(bits-1), math.Inf(-1)),
+		p(53), p(53) + 2, 4.9e-324}
+	return vs
+}
+
+// execC10Float64: DecodeCustom on a caller-built Raw whose member is a Go float64 (the float64 arm
+// of `decode`; not reachable through Parser.Parse).  No model (Wire has no float64): the property is
+// evaluated directly with math/big — accepted ⇔ the value is integral and within the destination
+// range, and the stored value is exactly it.
+func execC10Float64(c *vf.Ctx, cs c10Case) {
+	f := c10FailOf(c)
+	ent := c10EntryByName(cs.Type)
+	if ent == nil || ent.IntBits == 0 {
+		return
+	}
+	x := math.Float64frombits(cs.F64)
+	out := reflect.New(ent.Type)
+	var err error
+	panicked, what := vf.Recover(func() { err = (&jwt.Claims{Raw: map[string]any{"v": x}}).DecodeCustom(out.Interface()) })
+	c.Case(fmt.Sprintf("float64/%s/%x", cs.Type, cs.F64), true)
+	c.Count("predicate/float64")
+	if panicked {
+		f.fail(vf.Violation{Kind: "property", Class: "c10-float64-int-boundary", What: "DecodeCustom panics on a float64 member", Case: cs, Observed: what, Required: "ok or error"})
+		return
+	}
+	lo, hi := new(big.Int), new(big.Int)
+	if ent.Unsigned {
+		hi.Sub(new(big.Int).Lsh(big.NewInt(1), uint(ent.IntBits)), big.NewInt(1))
+	} else {
+		hi.Sub(new(big.Int).Lsh(big.NewInt(1), uint(ent.IntBits-1)), big.NewInt(1))
+		lo.Neg(new(big.Int).Lsh(big.NewInt(1), uint(ent.IntBits-1)))
+	}
+	fits := false
+	exact := new(big.Int)
+	if !math.IsNaN(x) && !math.IsInf(x, 0) {
+		bf := new(big.Float).SetFloat64(x)
+		if bf.IsInt() {
+			bf.Int(exact)
+			fits = exact.Cmp(lo) >= 0 && exact.Cmp(hi) <= 0
+		}
+	}
+	if fits != (err == nil) {
+		f.fail(vf.Violation{Kind: "property", Class: "c10-float64-int-boundary", What: fmt.Sprintf("float64 %v into %s: accepted=%v but fits=%v (a value that does not fit must be an error, never altered)", x, ent.Name, err == nil, fits), Case: cs, Observed: fmt.Sprint(c10ValOf(out.Elem()).Render(), " err=", err), Required: fmt.Sprint("fits=", fits)})
+		return
+	}
+	if err == nil {
+		v := c10ValOf(out.Elem()).Arr[1].Arr[0].Arr[1]
+		if v.Kind != vf.KInt || v.Int.Cmp(exact) != 0 {
+			f.fail(vf.Violation{Kind: "property", Class: "c10-float64-int-boundary", What: "stored value differs from the float64 member", Case: cs, Observed: v.Render(), Required: exact.String()})
+		}
 	}
 }
 
@@ -1064,6 +1148,19 @@ func runC10(c *vf.Ctx) {
 			for _, tx := range texts {
 				if k%workers == w && !f.stop() {
 					execC10(c, d, c10Case{Stream: "number", Type: tn, Text: tx})
+				}
+				k++
+			}
+		}
+		// float64 arm (caller-built Raw): boundary values of every integer kind, exhaustive in both tiers
+		k = 0
+		for _, e := range c10Family {
+			if e.IntBits == 0 {
+				continue
+			}
+			for _, x := range c10Float64Values(e.IntBits) {
+				if k%workers == w && !f.stop() {
+					execC10(c, d, c10Case{Stream: "float64", Type: e.Name, F64: math.Float64bits(x)})
 				}
 				k++
 			}
@@ -1113,6 +1210,13 @@ func runC10(c *vf.Ctx) {
 		}
 		for i := 0; i < nClaims/workers && !f.stop(); i++ {
 			execC10(c, d, c10Case{Stream: "claims", Claims: c10GenClaims(r)})
+		}
+		for i := 0; i < nClaims/workers && !f.stop(); i++ {
+			cs := c10Case{Stream: "refresh", Claims: c10GenClaims(r)}
+			for k := 1 + r.Intn(3); k > 0; k-- {
+				cs.Mods = append(cs.Mods, *c10GenClaims(r))
+			}
+			execC10(c, d, cs)
 		}
 		for i := 0; i < nHist/workers && !f.stop(); i++ {
 			cs := c10Case{Stream: "history", Hist: c10GenHist(r, nDyn)}
